@@ -260,10 +260,12 @@ Definition is_dump (o : sop) : bool := match o with SDump _ _ | SDumpKeys _ _ =>
 Definition subdoc_op (op : kop) : bool :=
   match op with KWriteSubDoc _ _ _ | KSubdocInsert _ _ _ | KGetSubDocRaw _ => true | _ => false end.
 
+Definition coll_only (f : fevent) : fevent := mkFevent FMutation "" "" [] false false 0 0 0 (f_coll f).
+
 (* C11 looks only at the collections the step did NOT address *)
 Definition mask_other_colls (o : sop) (ob : ostep) : ostep :=
   match o with
-  | SKv c _ _ => mkOstep ROk [] []
+  | SKv c _ _ => mkOstep ROk (map coll_only (os_live ob)) []     (* of the events: which collection they claim to come from *)
                          (mkSnap (sn_colls (os_snap ob)) (rows_outside c (os_snap ob)) (order_outside c (os_snap ob)) [])
   | SDropColl c | SCreateColl c =>
       mkOstep (os_resp ob) [] [] (mkSnap (sn_colls (os_snap ob)) (rows_outside c (os_snap ob)) (order_outside c (os_snap ob)) [])
